@@ -707,7 +707,17 @@ class C12(Prop):
             "zeros, 30% with further terms elsewhere; 40%: main-family Hamiltonians (unit / rational / symbolic); in both all prefactors times "
             "one global factor: 1, 10^k (|k| <= 40), 2^k (|k| <= 100), a rational with a big denominator, the exact value of a float, an integer "
             "of 16..25 digits (prefactors of one Hamiltonian stay within a few orders of magnitude of each other, so that the relative "
-            "threshold of the numerical Schmidt rank is meaningful; exactness is judged relative to the largest entry of H)")
+            "threshold of the numerical Schmidt rank is meaningful; exactness is judged relative to the largest entry of H). "
+            "GROWN HAMILTONIAN OBJECTS AND CONSTRUCTOR INPUT FORMS [str7-C12] (struct grown:*, numeric prefactors only, so never attributable to a "
+            "recorded symbolic finding): the term list of a main-family Hamiltonian (unit / rational; 35% with an EMPTY-SUPPORT term = identity / "
+            "constant offset, 8% of those alone) is cut into consecutive chunks; the first chunk (0, 1, 2, half, all but one or all of the terms) goes "
+            "to the constructor in a documented input form (None / no argument / empty list / list of triples / list of bare TensorProducts / mixed "
+            "list / ONE bare TensorProduct / one triple), every further chunk is added by add_term (triple or TensorProduct), add_multiple_terms "
+            "(triples or TensorProducts), add_hamiltonian, `ham + other`, `ham += other` (other built in any constructor form, with its own "
+            "dictionaries), `ham + TensorProduct`, `ham += TensorProduct`; 15% of the steps are followed by an addition that adds nothing or is "
+            "REJECTED (ham + 3, ham + 'x': TypeError caught, object used on); after the constructor (85%) and after later steps (45%) a TTNO is built "
+            "(SGE 4/7, BIPARTITE, BASE, TREE) from the Hamiltonian as it is then ON THE SAME TREE OBJECT the final judged SGE construction uses; "
+            "every SGE construction on the way is judged by the oracle against the dense operator of the terms given so far; 25% in a pristine process")
     clauses = [
         ("F", "min_cert_sound: an accepted certificate (row/column indices of an r x r minor of Gamma and its inverse) excludes every factorisation "
               "Gamma = X*Y through an inner dimension k < r, for all matrices and all X, Y (C12_min_cert_sound; core lemma C12_kernel_vector: k equations "
@@ -737,6 +747,11 @@ class C12(Prop):
               "with coinciding truncated digests) and whose rational prefactors have large numerators / denominators or a global factor between "
               "1e-40 and 1e40: the bond dimension must not depend on how the operators are called, and exactly rank-deficient coupling matrices "
               "must be recognised whatever the size of the fractions; the dense TTNO must equal H up to 1e-9 RELATIVE to the largest entry of H"),
+        ("V", "[str7-C12] the same oracle for Hamiltonian objects assembled step by step with every public route (constructor input forms incl. a bare "
+              "TensorProduct with empty support, add_term, add_multiple_terms, add_hamiltonian, + and += with a Hamiltonian or a TensorProduct, rejected "
+              "additions in between) and rebuilt on the same tree object: after every step the SGE bond dimensions equal the operator Schmidt ranks of the "
+              "dense operator of ALL terms given so far (reference computed from the case, never from the library's Hamiltonian object); an identity / "
+              "constant-offset Hamiltonian has bond dimension one on every edge; certificates and call-path tie for the final construction"),
     ]
     trusted_base = ["the link 'a TTNO with bond k on e that represents H exactly factors Gamma_e through k' (operator strings on either side are linearly "
                     "independent for generic operator values) is the standard argument and is not formalised; what is kernel-checked is rank Gamma_e >= r",
